@@ -795,6 +795,169 @@ def translate_rrule_str(src):
             "def rruleStr (x : RRuleStr.StrIn) : StrPy.Str :=\n%s\n" % indent(body))
     return text, {"rrule.__str__": fingerprint([fn])}
 
+# ---------------------------------------------------------------------------------------------------------------------
+# _rrulestr._parse_rfc_rrule and the _handle_* family  ->  Gen.rrsHandle / rrsLineValue / rrsStepPair / rrsParseRule
+#
+# `getattr(self, "_handle_" + name)` is resolved against the CLASS BODY as written: every `def _handle_X` and every alias
+# `_handle_Y = _handle_X` whose name is upper-case after the prefix (the caller upper-cases `name`) becomes one arm of an
+# if-chain in source order; the handler's body is instantiated with that name (`name.lower()` is folded to the keyword).
+# A handler body is ONE assignment `rrkwargs[<key>] = <value>` (after optional lazy imports / `global`), possibly inside
+# `try: … except (ValueError, OverflowError): raise ValueError(…)`.  Values: `int(value)`, `[int(x) for x in value.split(',')]`,
+# `self._freq_map[value]`, `self._weekday_map[value]`, `parser.parse(value, ignoretz=kwargs.get("ignoretz"),
+# tzinfos=kwargs.get("tzinfos"))` (kept as the text and the options: the parse itself is C02).
+# `_handle_BYWEEKDAY` (the `+1MO` / `MO(+1)` splitting loop) is NOT translated yet: its arm calls the hand model `parseWDay`.
+
+UPDATE_KEYS = {"freq", "interval", "count", "wkst", "until", "bysetpos", "bymonth", "bymonthday", "byyearday", "byeaster",
+               "byweekno", "byweekday", "byhour", "byminute", "bysecond"}
+HAND_MODELLED_HANDLERS = {"_handle_BYWEEKDAY"}
+
+def handler_arm(fn, upname):
+    """Lean expression : Py.R RRuleStr.Update for handler `fn` called with name = upname"""
+    body = [st for st in strip_docstring(fn.body) if not isinstance(st, (ast.Global, ast.Import, ast.ImportFrom))
+            and not (isinstance(st, ast.If) and not st.orelse and all(isinstance(x, (ast.Import, ast.ImportFrom)) for x in st.body))]
+    if len(body) == 1 and isinstance(body[0], ast.Try):
+        t = body[0]
+        ok = (len(t.body) == 1 and not t.orelse and not t.finalbody and len(t.handlers) == 1 and len(t.handlers[0].body) == 1
+              and isinstance(t.handlers[0].body[0], ast.Raise) and isinstance(t.handlers[0].body[0].exc, ast.Call)
+              and getattr(t.handlers[0].body[0].exc.func, "id", None) == "ValueError")
+        if not ok: raise Untranslatable("%s: try shape" % fn.name)
+        body = t.body
+    if len(body) != 1 or not isinstance(body[0], ast.Assign) or not isinstance(body[0].targets[0], ast.Subscript) \
+       or getattr(body[0].targets[0].value, "id", None) != "rrkwargs":
+        raise Untranslatable("%s: body is not one assignment to rrkwargs[...]" % fn.name)
+    k = body[0].targets[0].slice
+    if isinstance(k, ast.Constant) and isinstance(k.value, str): key = k.value
+    elif isinstance(k, ast.Call) and isinstance(k.func, ast.Attribute) and k.func.attr == "lower" and getattr(k.func.value, "id", None) == "name" and not k.args:
+        key = upname.lower()
+    else: raise Untranslatable("%s: key expression" % fn.name)
+    if key not in UPDATE_KEYS: raise Untranslatable("%s: keyword %r" % (fn.name, key))
+    ctor = "untilV" if key == "until" else key
+    v = body[0].value
+    def is_value(n): return isinstance(n, ast.Name) and n.id == "value"
+    if isinstance(v, ast.Call) and getattr(v.func, "id", None) == "int" and len(v.args) == 1 and is_value(v.args[0]):
+        if key not in ("interval", "count"): raise Untranslatable("%s: int value for %s" % (fn.name, key))
+        return "(RRuleStr.int! value) >>= fun v => .ok (.%s v)" % ctor
+    if isinstance(v, ast.ListComp) and len(v.generators) == 1 and not v.generators[0].ifs and isinstance(v.elt, ast.Call) \
+       and getattr(v.elt.func, "id", None) == "int" and getattr(v.elt.args[0], "id", None) == getattr(v.generators[0].target, "id", "?"):
+        it = v.generators[0].iter
+        if not (isinstance(it, ast.Call) and isinstance(it.func, ast.Attribute) and it.func.attr == "split" and is_value(it.func.value)
+                and len(it.args) == 1 and isinstance(it.args[0], ast.Constant) and isinstance(it.args[0].value, str) and len(it.args[0].value) == 1):
+            raise Untranslatable("%s: list comprehension source" % fn.name)
+        if not key.startswith("by") or key == "byweekday": raise Untranslatable("%s: int list for %s" % (fn.name, key))
+        return "((ICal.splitOnChar %s value).mapM RRuleStr.int!) >>= fun l => .ok (.%s l)" % (lean_char(it.args[0].value), ctor)
+    if isinstance(v, ast.Subscript) and isinstance(v.value, ast.Attribute) and getattr(v.value.value, "id", None) == "self" and is_value(v.slice) \
+       and v.value.attr in ("_freq_map", "_weekday_map"):
+        table = {"_freq_map": "Gen.FREQ_MAP", "_weekday_map": "Gen.WEEKDAY_MAP"}[v.value.attr]
+        if key not in ("freq", "wkst"): raise Untranslatable("%s: table value for %s" % (fn.name, key))
+        return "match RRuleStr.lookup (%s.map (fun p => (p.1.toList, p.2))) value with | some k => .ok (.%s k) | none => .error .KeyError" % (table, ctor)
+    if isinstance(v, ast.Call) and isinstance(v.func, ast.Attribute) and v.func.attr == "parse" and getattr(v.func.value, "id", None) == "parser" \
+       and len(v.args) == 1 and is_value(v.args[0]):
+        kws = {k.arg: k.value for k in v.keywords}
+        def kwget(n, nm):
+            return isinstance(n, ast.Call) and isinstance(n.func, ast.Attribute) and n.func.attr == "get" and getattr(n.func.value, "id", None) == "kwargs" \
+                and len(n.args) == 1 and isinstance(n.args[0], ast.Constant) and n.args[0].value == nm
+        if set(kws) != {"ignoretz", "tzinfos"} or not kwget(kws["ignoretz"], "ignoretz") or not kwget(kws["tzinfos"], "tzinfos") or key != "until":
+            raise Untranslatable("%s: parser.parse call" % fn.name)
+        return ".ok (.untilV value po)"
+    raise Untranslatable("%s: value expression" % fn.name)
+
+def translate_rule_parser(src):
+    tree = ast.parse(open(os.path.join(src, "rrule.py")).read())
+    cls = find_function(tree, "_rrulestr")
+    defs, arms, fps = {}, [], {}
+    for st in cls.body:
+        if isinstance(st, ast.FunctionDef) and st.name.startswith("_handle_"):
+            defs[st.name] = st
+            if st.name[8:].isupper(): arms.append((st.name[8:], st.name))
+        elif isinstance(st, ast.Assign) and len(st.targets) == 1 and isinstance(st.targets[0], ast.Name) and st.targets[0].id.startswith("_handle_"):
+            if not (isinstance(st.value, ast.Name) and st.value.id in defs): raise Untranslatable("alias %s" % st.targets[0].id)
+            defs[st.targets[0].id] = defs[st.value.id]
+            if st.targets[0].id[8:].isupper(): arms.append((st.targets[0].id[8:], st.value.id))
+    chain = []
+    for up, target in arms:
+        fn = defs[target]
+        if fn.name in HAND_MODELLED_HANDLERS:
+            arm = "((ICal.splitOnChar ',' value).mapM RRuleStr.parseWDay) >>= fun l => .ok (.byweekday l)"      # hand model (see above)
+        else:
+            arm = handler_arm(fn, up)
+            fps["_rrulestr." + fn.name] = fingerprint([fn])
+        chain.append('if name == RRuleStr.lit "%s" then %s' % (up, arm))
+    out = ["/-- translated from `rrule.py:_rrulestr`: `getattr(self, \"_handle_\" + name)(rrkwargs, name, value, ignoretz=…, tzinfos=…)` resolved\n"
+           "    against the class body (every `_handle_X` definition and alias, in source order) as the assignment it makes; `po` = the\n"
+           "    `ignoretz` / `tzinfos` keyword arguments; an unknown name is AttributeError -/\n"
+           "def rrsHandle (po : RRuleStr.ParseOpts) (name value : StrPy.Str) : Py.R RRuleStr.Update :=\n  "
+           + "\n  else ".join(chain) + "\n  else .error .AttributeError\n"]
+    # _parse_rfc_rrule
+    fn = find_function(cls, "_parse_rfc_rrule")
+    b = strip_docstring(fn.body)
+    def cname(n): return getattr(n, "id", None)
+    ok = len(b) == 5 and isinstance(b[0], ast.If) and isinstance(b[1], ast.Assign) and isinstance(b[2], ast.For) and isinstance(b[3], ast.If) and isinstance(b[4], ast.Return)
+    if not ok: raise Untranslatable("_parse_rfc_rrule: statement list")
+    # 1. the optional `RRULE:` head
+    i0 = b[0]
+    t = i0.test
+    if not (isinstance(t, ast.Compare) and isinstance(t.left, ast.Call) and t.left.func.attr == "find" and cname(t.left.func.value) == "line"
+            and isinstance(t.ops[0], ast.NotEq) and isinstance(t.comparators[0], ast.UnaryOp) and t.comparators[0].operand.value == 1
+            and len(i0.body) == 2 and isinstance(i0.body[0], ast.Assign) and isinstance(i0.body[0].targets[0], ast.Tuple)
+            and [cname(e) for e in i0.body[0].targets[0].elts] == ["name", "value"]
+            and isinstance(i0.body[0].value, ast.Call) and i0.body[0].value.func.attr == "split" and cname(i0.body[0].value.func.value) == "line"
+            and i0.body[0].value.args[0].value == t.left.args[0].value and len(t.left.args[0].value) == 1
+            and isinstance(i0.body[1], ast.If) and isinstance(i0.body[1].test, ast.Compare) and cname(i0.body[1].test.left) == "name"
+            and isinstance(i0.body[1].test.ops[0], ast.NotEq) and isinstance(i0.body[1].body[0], ast.Raise) and not i0.body[1].orelse
+            and len(i0.orelse) == 1 and cname(i0.orelse[0].targets[0]) == "value" and cname(i0.orelse[0].value) == "line"):
+        raise Untranslatable("_parse_rfc_rrule: head")
+    sep = t.left.args[0].value
+    pname = i0.body[1].test.comparators[0].value
+    exc0 = i0.body[1].body[0].exc.func.id
+    out.append("/-- translated from `_rrulestr._parse_rfc_rrule`: the optional `%s%s` head (`name, value = line.split('%s')` unpacks exactly two parts) -/\n"
+               "def rrsLineValue (line : StrPy.Str) : Py.R StrPy.Str :=\n"
+               "  if line.contains %s then\n    match ICal.splitOnChar %s line with\n    | [name, value] => if name != RRuleStr.lit \"%s\" then .error .%s else .ok value\n"
+               "    | _ => .error .ValueError\n  else .ok line\n" % (pname, sep, sep, lean_char(sep), lean_char(sep), pname, exc0))
+    # 2. rrkwargs = {}
+    if not (cname(b[1].targets[0]) == "rrkwargs" and isinstance(b[1].value, ast.Dict) and not b[1].value.keys): raise Untranslatable("_parse_rfc_rrule: rrkwargs")
+    # 3. the loop over the parts
+    f = b[2]
+    fb = f.body
+    if not (cname(f.target) == "pair" and isinstance(f.iter, ast.Call) and f.iter.func.attr == "split" and cname(f.iter.func.value) == "value"
+            and len(fb) == 4 and isinstance(fb[0].targets[0], ast.Tuple) and [cname(e) for e in fb[0].targets[0].elts] == ["name", "value"]
+            and fb[0].value.func.attr == "split" and cname(fb[0].value.func.value) == "pair"
+            and all(isinstance(fb[k], ast.Assign) and cname(fb[k].targets[0]) == nm and fb[k].value.func.attr == "upper" and cname(fb[k].value.func.value) == nm
+                    for k, nm in ((1, "name"), (2, "value")))
+            and isinstance(fb[3], ast.Try) and len(fb[3].body) == 1 and not fb[3].orelse and not fb[3].finalbody):
+        raise Untranslatable("_parse_rfc_rrule: loop body")
+    psep, esep = f.iter.args[0].value, fb[0].value.args[0].value
+    call = fb[3].body[0].value
+    g = call.func
+    if not (isinstance(g, ast.Call) and cname(g.func) == "getattr" and cname(g.args[0]) == "self" and isinstance(g.args[1], ast.BinOp)
+            and g.args[1].left.value == "_handle_" and cname(g.args[1].right) == "name" and [cname(a) for a in call.args] == ["rrkwargs", "name", "value"]
+            and {k.arg: cname(k.value) for k in call.keywords} == {"ignoretz": "ignoretz", "tzinfos": "tzinfos"}):
+        raise Untranslatable("_parse_rfc_rrule: handler call")
+    arms2 = []
+    for h in fb[3].handlers:
+        kinds = [cname(h.type)] if isinstance(h.type, ast.Name) else [cname(e) for e in h.type.elts]
+        if not (len(h.body) == 1 and isinstance(h.body[0], ast.Raise) and isinstance(h.body[0].exc, ast.Call)): raise Untranslatable("_parse_rfc_rrule: handler")
+        for kd in kinds: arms2.append("    | .error .%s => .error .%s" % (kd, h.body[0].exc.func.id))
+    out.append("/-- translated from `_rrulestr._parse_rfc_rrule`: the body of `for pair in value.split('%s'):` — `name, value = pair.split('%s')`,\n"
+               "    both upper-cased, the handler call, and the exception mapping of the `try` statement (other kinds propagate) -/\n"
+               "def rrsStepPair (po : RRuleStr.ParseOpts) (a : RRuleStr.RArgs) (pair : StrPy.Str) : Py.R RRuleStr.RArgs :=\n"
+               "  match ICal.splitOnChar %s pair with\n  | [name, value] =>\n    match rrsHandle po (ICal.upper name) (ICal.upper value) with\n    | .ok u => .ok (u.apply a)\n%s\n    | .error e => .error e\n"
+               "  | _ => .error .ValueError\n" % (psep, esep, lean_char(esep), "\n".join(arms2)))
+    # 4. FREQ is required   5. return rrule(dtstart=dtstart, cache=cache, **rrkwargs)
+    t4 = b[3].test
+    if not (isinstance(t4, ast.Compare) and isinstance(t4.ops[0], ast.NotIn) and t4.left.value == "freq" and cname(t4.comparators[0]) == "rrkwargs"
+            and isinstance(b[3].body[0], ast.Raise) and not b[3].orelse):
+        raise Untranslatable("_parse_rfc_rrule: freq check")
+    r = b[4].value
+    if not (isinstance(r, ast.Call) and cname(r.func) == "rrule" and not r.args
+            and sorted((k.arg or "**", cname(k.value)) for k in r.keywords) == [("**", "rrkwargs"), ("cache", "cache"), ("dtstart", "dtstart")]):
+        raise Untranslatable("_parse_rfc_rrule: return")
+    out.append("/-- translated from `_rrulestr._parse_rfc_rrule` (whole method): the keyword arguments handed to `rrule(dtstart=dtstart, cache=cache, **rrkwargs)` -/\n"
+               "def rrsParseRule (po : RRuleStr.ParseOpts) (line : StrPy.Str) : Py.R RRuleStr.RArgs :=\n"
+               "  (rrsLineValue line) >>= fun value =>\n  ((ICal.splitOnChar %s value).foldlM (rrsStepPair po) {}) >>= fun rrkwargs =>\n"
+               "  if rrkwargs.freq.isNone then .error .%s else .ok rrkwargs\n" % (lean_char(psep), b[3].body[0].exc.func.id))
+    fps["_rrulestr._parse_rfc_rrule"] = fingerprint([fn])
+    return "\n".join(out), fps
+
 def translate_all(src):
     loc = locate(src)
     out, fps = [], {}
@@ -829,6 +992,8 @@ def translate_all(src):
                "def rrsAttach (TZID date_tzinfo : Option StrPy.Zone) : Py.R (Option StrPy.Zone) :=\n%s\n" % indent(body))
     fps["_rrulestr._parse_date_value[attach]"] = fingerprint(loc["attach"])
     text, fp = translate_rrule_str(src)
+    out.append(text); fps.update(fp)
+    text, fp = translate_rule_parser(src)
     out.append(text); fps.update(fp)
     return "\n".join(out), fps
 
